@@ -126,6 +126,7 @@ def run(ctx, report):
             for t in trees_of(text, lid)[:2]:
                 inp = {'what': 'twice:' + name, 'loop_id': lid, 'text': text[:3000]}
                 try:
+                    qualified_query_law(report, rng, t, inp)
                     deep_query_law(report, rng, t, inp)
                 except Exception as e:  # noqa
                     report.fail('C10:oracle-raised:%s' % type(e).__name__, 'a query on a valid deep path raised %s: %s' % (type(e).__name__, str(e)[:100]), inp)
@@ -200,6 +201,58 @@ def deep_query_law(report, rng, t, inp):
         if e != (len(want) > 0) or (f is None) != (len(want) == 0) or (f is not None and f is not want[0]):
             report.fail('C10:deep-path-exists-first', 'path %r: exists %r, first %s; the tree holds %d matching nodes' % (
                 p, e, 'None' if f is None else 'a node', len(want)), dict(inp, path=p))
+
+
+def qualified_query_law(report, rng, t, inp):
+    """paths SEG[qual]: exactly the segments whose own qualifier (element 01, or its first component) IS qual"""
+    def qual_of(c):
+        mn = c.x12_map_node
+        try:
+            first = mn.children[0]
+            if first.is_composite():
+                k = first.children[0]
+                if k.get_data_type() != 'ID' or not k.valid_codes or mn.id in ('ENT', 'HL'):
+                    return None
+                return ('C', c.seg_data.get_value('01-1'), [x for x in k.valid_codes if x])
+            # the path scheme defines a qualifier for a required coded ID in element 01 (or its first component); ENT / HL have their own rule
+            if first.get_data_type() != 'ID' or not first.valid_codes or first.usage != 'R' or mn.id in ('ENT', 'HL'):
+                return None
+            return ('S', c.seg_data.get_value('01'), [x for x in first.valid_codes if x])
+        except Exception:  # noqa
+            return None
+    cands = []
+    for loops, sid in all_paths(t):
+        if sid is None:
+            continue
+        nodes = all_matches(t, loops, sid)
+        qs = [(n_, qual_of(n_)) for n_ in nodes]
+        if not qs or any(q is None or not q[1] for _n, q in qs):
+            continue
+        cands.append((loops, sid, qs))
+    rng.shuffle(cands)
+    cands.sort(key=lambda c_: 0 if (c_[2][0][1][0] == 'C' and len(set(q[1] for _n, q in c_[2])) > 1) else (1 if c_[2][0][1][0] == 'C' else 2))
+    for loops, sid, qs in cands[:8]:
+        present = sorted(set(q[1] for _n, q in qs))
+        allowed = sorted(set(x for _n, q in qs for x in q[2]))
+        absent = [x for x in allowed if x not in present]
+        for qual in present[:3] + absent[:2]:
+            p = '/'.join(loops + ['%s[%s]' % (sid, qual)])
+            want = [n_ for n_, q in qs if q[1] == qual]
+            report.case(('qualquery', inp['text'], inp['loop_id'], p))
+            report.count('law:qualified-path:%s' % ('composite' if qs[0][1][0] == 'C' else 'simple'))
+            if len(present) > 1:
+                report.count('law:qualified-path:several-qualifiers-present')
+            try:
+                got = list(t.select(p))
+                c, e, f = t.count(p), t.exists(p), t.first(p)
+            except Exception as ex:  # noqa
+                report.fail('C10:oracle-raised:%s' % type(ex).__name__, 'a query with the qualified path %r raised %s' % (p, type(ex).__name__), dict(inp, path=p))
+                continue
+            if c != len(want) or len(got) != len(want) or any(a is not b for a, b in zip(got, want)) or e != bool(want) or (f is None) != (not want) \
+                    or (f is not None and f is not want[0]):
+                report.fail('C10:qualified-path:%s' % ('composite' if qs[0][1][0] == 'C' else 'simple'),
+                            'path %r: count %d, select %d, exists %r, first %s; %d segments carry that qualifier (qualifiers present: %r)' % (
+                                p, c, len(got), e, 'None' if f is None else 'a node', len(want), present), dict(inp, path=p))
 
 
 def laws(report, rng, t, inp):
